@@ -119,10 +119,32 @@ impl CdnPathCache {
         self.cache.get(product).map(|entry| entry.path.as_str())
     }
 
+    /// Check whether a path can be the `{cdn_path}` part of a CDN URL
+    ///
+    /// A usable path is relative, made of non-empty components other than `.` and `..`,
+    /// and contains no white space or control characters. Trailing slashes are allowed
+    /// (the URL builder strips them).
+    pub fn is_valid_path(path: &str) -> bool {
+        let trimmed = path.trim_end_matches('/');
+        !trimmed.is_empty()
+            && !trimmed.chars().any(|c| c.is_whitespace() || c.is_control())
+            && trimmed
+                .split('/')
+                .all(|part| !part.is_empty() && part != "." && part != "..")
+    }
+
     /// Cache path for a product
     ///
     /// CRITICAL: Path must be extracted from CDN response, never hardcoded
+    ///
+    /// With validation enabled a malformed path (see [`Self::is_valid_path`]) is not
+    /// cached; the product keeps the entry it had, if any.
     pub fn set(&mut self, product: String, path: String) {
+        if self.validate_paths && !Self::is_valid_path(&path) {
+            tracing::warn!("Ignoring malformed CDN path {path:?} for product {product}");
+            return;
+        }
+
         let cached_path = CachedPath {
             path,
             cached_at: Instant::now(),
